@@ -25,6 +25,7 @@ type c09Case struct {
 	TimeoutMs int    `json:"timeout_ms"`
 	Calls     int    `json:"calls"`   // sequential calls on the same env (op id freshness)
 	Outcome   string `json:"outcome"` // ok | declared | error (rpc only)
+	Reuse     bool   `json:"reuse"`   // all calls of the case reuse one FContext (allowed once a request has completed)
 }
 
 func genUserPairs(t *rapid.T, label string, max int) []KV {
@@ -67,6 +68,7 @@ func genC09(t *rapid.T) c09Case {
 		c.TimeoutMs = 5000
 	}
 	c.Calls = rapid.IntRange(1, 4).Draw(t, "calls")
+	c.Reuse = rapid.IntRange(0, 2).Draw(t, "reuse") == 0
 	return c
 }
 
@@ -86,6 +88,12 @@ func classifyC09(c c09Case) ev.Class {
 	}
 	if len(c.Resp) > 0 {
 		labels = append(labels, "response-headers")
+	}
+	if c.Reuse && c.Calls > 1 {
+		labels = append(labels, "fcontext-reused")
+	}
+	if c.Calls > 1 {
+		labels = append(labels, "several-calls-one-connection")
 	}
 	nt := (len(c.User) >= 1 && (len(c.Resp) >= 1 || c.Mode == "pubsub")) || c.TimeoutMs != 5000
 	return ev.Class{NonTrivial: nt, Key: fmt.Sprintf("%s|%s|%s|%x|%x|%s|%d|%d|%s", c.Mode, c.Transport, c.Proto, canonPairs(c.User), canonPairs(c.Resp), c.Cid, c.TimeoutMs, c.Calls, c.Outcome), Labels: labels}
@@ -112,8 +120,41 @@ type seenCtx struct {
 	timeout time.Duration
 }
 
-func checkSeen(c c09Case, s seenCtx, callerOp, wantCid string, where string) *ev.Failure {
-	want := pairsToMap(c.User)
+// userFor returns the user headers of call i: the header set differs from call to call
+// (a stale header of an earlier call must not reappear).
+func (c c09Case) userFor(i int) []KV {
+	if c.Reuse {
+		// a reused context can only accumulate headers
+		out := append([]KV{}, c.User...)
+		for j := 1; j <= i; j++ {
+			out = append(out, kv(fmt.Sprintf("added-in-call-%d", j), fmt.Sprint(j)))
+		}
+		return out
+	}
+	var out []KV
+	for j, p := range c.User {
+		if (j+i)%3 == 2 {
+			continue // this call does not send that header
+		}
+		v := p.V
+		if (j+i)%2 == 1 {
+			v = append(append([]byte{}, v...), []byte(fmt.Sprintf("#%d", i))...)
+		}
+		out = append(out, KV{p.K, v})
+	}
+	return out
+}
+
+func (c c09Case) respFor(i int) []KV {
+	var out []KV
+	for _, p := range c.Resp {
+		out = append(out, KV{p.K, append(append([]byte{}, p.V...), []byte(fmt.Sprintf("@%d", i))...)})
+	}
+	return out
+}
+
+func checkSeen(c c09Case, s seenCtx, callerOp, wantCid string, where string, user []KV) *ev.Failure {
+	want := pairsToMap(user)
 	for k, v := range want {
 		if g, ok := s.req[k]; !ok || g != v {
 			return ev.Failf("header-lost", "%s: user header %q = %q,%v on the receiving side, sent %q", where, k, g, ok, v)
@@ -165,8 +206,9 @@ func execC09RPC(c c09Case) *ev.Failure {
 		echo: func(ctx frugal.FContext, v string) (string, error) {
 			mu.Lock()
 			seen = append(seen, seenCtx{ctx.RequestHeaders(), ctx.CorrelationID(), ctx.Timeout()})
+			callNo := len(seen) - 1
 			mu.Unlock()
-			for _, p := range c.Resp {
+			for _, p := range c.respFor(callNo) {
 				ctx.AddResponseHeader(string(p.K), string(p.V))
 			}
 			switch c.Outcome {
@@ -184,17 +226,27 @@ func execC09RPC(c c09Case) *ev.Failure {
 		return ev.Failf("harness:env", "%v", err)
 	}
 	defer env.close()
+	var shared frugal.FContext
 	for i := 0; i < c.Calls; i++ {
-		ctx := frugal.NewFContext(c.Cid)
+		var ctx frugal.FContext
+		if c.Reuse && shared != nil {
+			ctx = shared
+		} else {
+			ctx = frugal.NewFContext(c.Cid)
+			shared = ctx
+		}
 		if c.TimeoutMs != 5000 || i%2 == 1 {
 			ctx.SetTimeout(time.Duration(c.TimeoutMs) * time.Millisecond)
 		}
-		for _, p := range c.User {
+		user := c.userFor(i)
+		for _, p := range user {
 			ctx.AddRequestHeader(string(p.K), string(p.V))
 		}
 		callerOp := opidOf(ctx)
-		if f := noteOp(callerOp, fmt.Sprintf("caller NewFContext (call %d)", i)); f != nil {
-			return f
+		if !(c.Reuse && i > 0) {
+			if f := noteOp(callerOp, fmt.Sprintf("caller NewFContext (call %d)", i)); f != nil {
+				return f
+			}
 		}
 		wantCid := ctx.CorrelationID()
 		if c.Cid != "" && wantCid != c.Cid {
@@ -226,7 +278,7 @@ func execC09RPC(c c09Case) *ev.Failure {
 		if n != i+1 {
 			return ev.Failf("handler-count", "%s: handler ran %d times after %d calls", where, n, i+1)
 		}
-		if f := checkSeen(c, s, callerOp, wantCid, where); f != nil {
+		if f := checkSeen(c, s, callerOp, wantCid, where, user); f != nil {
 			return f
 		}
 		// caller side
@@ -234,9 +286,9 @@ func execC09RPC(c c09Case) *ev.Failure {
 			return ev.Failf("caller-opid-changed", "%s: the caller's request op id changed from %s to %s", where, callerOp, opidOf(ctx))
 		}
 		rh := ctx.ResponseHeaders()
-		for _, p := range c.Resp {
+		for _, p := range c.respFor(i) {
 			if g, ok := rh[string(p.K)]; !ok || g != string(p.V) {
-				return ev.Failf("response-header-lost", "%s: response header %q = %q,%v on the caller, handler set %q", where, p.K, g, ok, p.V)
+				return ev.Failf("response-header-lost", "%s: response header %q = %q,%v on the caller when the call returned, the handler set %q for this call (FContext reused: %v)", where, p.K, g, ok, p.V, c.Reuse && i > 0)
 			}
 		}
 		// the reply frame as captured at the transport
@@ -337,7 +389,7 @@ func execC09PubSub(c c09Case) *ev.Failure {
 		}
 		select {
 		case s := <-got:
-			if f := checkSeen(c, s, callerOp, ctx.CorrelationID(), fmt.Sprintf("pubsub %s/%s message %d", c.Transport, c.Proto, i)); f != nil {
+			if f := checkSeen(c, s, callerOp, ctx.CorrelationID(), fmt.Sprintf("pubsub %s/%s message %d", c.Transport, c.Proto, i), c.User); f != nil {
 				return f
 			}
 		case <-time.After(5 * time.Second):
